@@ -564,3 +564,59 @@ func (p *Prog) rootsUp(rs []Root, through func(callee string) bool) []Root {
 	}
 	return rs
 }
+
+// appendDests peels append-style calls off v: the memory a value built by
+// append(dst, …), fmt.Append*(dst, …), strconv.Append*(dst, …) or a module
+// function Append*(dst []byte, …) []byte lives in is dst's (or fresh, when dst
+// was too small); what is appended is copied.  Slicing and phis are followed.
+func appendDests(v ssa.Value) []ssa.Value {
+	var out []ssa.Value
+	seen := map[ssa.Value]bool{}
+	var walk func(v ssa.Value)
+	walk = func(v ssa.Value) {
+		if nil == v || seen[v] {
+			return
+		}
+		seen[v] = true
+		switch x := v.(type) {
+		case *ssa.Call:
+			name := calleeName(x.Common())
+			args := callArgs(x.Common())
+			appendLike := "builtin.append" == name || strings.HasPrefix(name, "fmt.Append") || strings.HasPrefix(name, "strconv.Append") ||
+				"slices.Grow" == name || "bytes.TrimSpace" == name || "bytes.TrimRight" == name || "bytes.TrimSuffix" == name
+			if sc := x.Common().StaticCallee(); !appendLike && nil != sc && strings.HasPrefix(sc.Name(), "Append") && 0 != len(sc.Params) && nil == sc.Signature.Recv() {
+				_, inSl := sc.Params[0].Type().Underlying().(*types.Slice)
+				res := sc.Signature.Results()
+				if inSl && 0 != res.Len() && types.Identical(res.At(0).Type(), sc.Params[0].Type()) {
+					appendLike = true
+				}
+			}
+			if appendLike && 0 != len(args) {
+				walk(args[0])
+				return
+			}
+		case *ssa.Extract:
+			if c, ok := x.Tuple.(*ssa.Call); ok && 0 == x.Index {
+				if sc := c.Common().StaticCallee(); nil != sc && strings.HasPrefix(sc.Name(), "Append") && 0 != len(sc.Params) && nil == sc.Signature.Recv() {
+					if _, inSl := sc.Params[0].Type().Underlying().(*types.Slice); inSl {
+						if args := callArgs(c.Common()); 0 != len(args) {
+							walk(args[0])
+							return
+						}
+					}
+				}
+			}
+		case *ssa.Slice:
+			walk(x.X)
+			return
+		case *ssa.Phi:
+			for _, e := range x.Edges {
+				walk(e)
+			}
+			return
+		}
+		out = append(out, v)
+	}
+	walk(v)
+	return out
+}
